@@ -403,10 +403,93 @@ def any_offset(rec, hb, pvl, tier, seed, part, nparts):
                                        f"colno={e.colno} for a character at {off}")
 
 
+def byte_routes(rec, hb, pvl, tier, part, nparts):
+    """The label arrives as bytes with image data behind END (so the library
+    decodes it piecewise): a disallowed multi-byte character before END - also
+    one that lies across a read-block boundary - must still be rejected."""
+    import io
+    import os
+    import tempfile
+    from .c09 import straddle_label, BLOCKS
+    LexerError = pvl.exceptions.LexerError
+    G = grammars(pvl)
+    k = 0
+    for dialect, chars in (("PVL", ("\u20ac", "\U0001F600")),
+                           ("ODL", ("\xe9", "\u20ac")), ("PDS3", ("\xe9", "\U0001F600"))):
+        for block in BLOCKS:
+            if tier == "quick" and block > 4096:
+                continue
+            for ch in chars:
+                for shift in range(2 * len(ch.encode("utf-8"))):
+                    k += 1
+                    if k % nparts != part:
+                        continue
+                    hb.beat()
+                    # (second half: the only such character sits in the last
+                    # block before the data)
+                    only_last = shift >= len(ch.encode("utf-8"))
+                    shift %= len(ch.encode("utf-8"))
+                    label = straddle_label(block, ch, shift, only_last)
+                    if label is None:
+                        continue
+                    data = label + b"\n\xff\xfe\x00\x81data" + b"\x00" * 40
+                    text = label.decode("utf-8")
+                    i = text.index(ch)
+                    fd, path = tempfile.mkstemp(prefix="pvl-c15-", dir="/dev/shm")
+                    with os.fdopen(fd, "wb") as f:
+                        f.write(data)
+                    try:
+                        for rname, fn in (
+                                ("loads(bytes+data, grammar=G)",
+                                 lambda: pvl.loads(data, grammar=G[dialect])),
+                                ("load(binary stream+data, grammar=G)",
+                                 lambda: pvl.load(io.BytesIO(data), grammar=G[dialect])),
+                                ("load(path+data, decoder=D)",
+                                 lambda: pvl.load(path, decoder=dialect_decoder(pvl, dialect))),
+                                ("load(path+data, parser)",
+                                 lambda: pvl.load(path, parser=strict_parser(pvl, dialect)))):
+                            rec.count(f"route[{rname}]")
+                            rec.case(("bytes", dialect, block, ch, shift, rname), True)
+                            wit = {"dialect": dialect, "route": rname, "codepoint": ord(ch),
+                                   "character_at_byte": block - shift, "block": block,
+                                   "text_around": text[max(0, i - 20):i + 20]}
+                            try:
+                                with common.cpu_limit(60):
+                                    fn()
+                                out = "ok"
+                            except common.CaseTimeout:
+                                rec.inconc("CPU budget exceeded (byte routes)")
+                                continue
+                            except LexerError as e:
+                                out = "LexerError"
+                                pos = getattr(e, "pos", None)
+                                if not isinstance(pos, int) or not 0 <= pos <= len(text):
+                                    rec.violation(
+                                        "C15", dialect, "error-attributes-inconsistent",
+                                        {"which": "pos", "route": rname,
+                                         "char_starts_lexeme": False, "doc_differs": None,
+                                         "dash_continuation_before_char": False}, wit,
+                                        f"pos {pos!r} outside the label")
+                            except Exception as e:
+                                out = type(e).__name__
+                            rec.count("disallowed_before_END_through_bytes")
+                            if out != "LexerError":
+                                rec.violation(
+                                    "C15", dialect, "disallowed-char-not-rejected",
+                                    {"position": "inside-double-quoted", "route": rname,
+                                     "outcome": out,
+                                     "at_multiple_of": block if shift else 0}, wit,
+                                    f"U+{ord(ch):04X} before END, label handed over as "
+                                    f"bytes with data behind END: {out}")
+                    finally:
+                        os.unlink(path)
+
+
 def shard(i, n, tier, seed, rec, hb):
     pvl = common.import_pvl()
     rng = random.Random(f"C15-{seed}")
     table(rec, hb, pvl, i, n)
+    byte_routes(rec, hb, pvl, tier, i, n)
     any_offset(rec, hb, pvl, tier, seed, i, n)
     cps = set(range(0, 0x300)) | set(EDGES) | set(SPECIALS)
     cps |= {rng.randrange(0x300, 0x110000) for _ in range(300 if tier == "quick" else 3000)}
@@ -439,6 +522,7 @@ def finish_kwargs(rec, tier):
                            "error_attribute_checks", "any_offset_cases",
                            "default_codepoints_in_quotes",
                            "route[loads(decoder=D)]", "route[load(stream, grammar=G)]",
+                           "disallowed_before_END_through_bytes",
                            "route[load(stream, decoder=D)]"),
         assumptions=["specification predicate: PVL/ISIS = ISO 8859-1 minus "
                      "0-8, 14-31, 127-159; ODL/PDS3 = code points < 128"],
